@@ -2,8 +2,12 @@ mod uci_command;
 
 use build_time::build_time_utc;
 use std::io::BufRead;
+#[cfg(not(rce_verif))]
 use std::sync::{atomic::AtomicBool, Arc};
+#[cfg(not(rce_verif))]
 use std::thread::{self, JoinHandle};
+#[cfg(rce_verif)]
+use crate::verif_hooks::{atomic::AtomicBool, thread, thread::JoinHandle, Arc};
 
 use crate::board::{Board, BoardBuilder};
 use crate::evaluate::simple_evaluator::SimpleEvaluator;
@@ -18,6 +22,12 @@ const VERSION: &str = build_time_utc!("%Y.%m.%d %H:%M:%S");
 
 pub fn start() {
     Uci::new().uci_loop(&mut std::io::stdin().lock());
+}
+
+/// Entry point for the simulation harness: one UCI session over `input`.
+#[cfg(rce_verif)]
+pub fn verif_run_session(input: &mut impl BufRead) {
+    Uci::new().uci_loop(input);
 }
 
 struct Uci {
@@ -39,6 +49,8 @@ impl Uci {
 
     fn uci_loop(&mut self, input: &mut impl BufRead) {
         loop {
+            #[cfg(rce_verif)]
+            crate::verif_hooks::session_state(&self.board);
             let mut line = String::new();
             input.read_line(&mut line).unwrap();
             let trimmed = line.trim();
